@@ -33,9 +33,19 @@ func newEventStream() Producer {
 func (e *eventStream) Receive(c *Context) {
 	switch msg := c.Message().(type) {
 	case eventSub:
+		// subscribers are identified by address and id, not by *PID object.
+		for sub := range e.subs {
+			if sub.Equals(msg.pid) {
+				return
+			}
+		}
 		e.subs[msg.pid] = true
 	case eventUnsub:
-		delete(e.subs, msg.pid)
+		for sub := range e.subs {
+			if sub.Equals(msg.pid) {
+				delete(e.subs, sub)
+			}
+		}
 	default:
 		// check if we should log the event, if so, log it with the relevant level, message and attributes
 		logMsg, ok := c.Message().(EventLogger)
